@@ -10,6 +10,7 @@ mod ops_lax;
 mod ops_prim;
 mod ops_strict;
 mod raw;
+mod replay;
 mod rng;
 mod wire;
 
@@ -33,6 +34,9 @@ fn main() {
     let count: usize = arg(&args, "--count", "1000").parse().unwrap();
     let size: usize = arg(&args, "--size", "6").parse().unwrap();
     let stats_path = arg(&args, "--stats", "");
+    // replay mode: re-execute the cases of a file (one per line, the format printed below)
+    // instead of generating them; `--group`, `--seed`, `--count`, `--size` are not used
+    let replay_path = arg(&args, "--replay-file", "");
 
     let (backend, g) = if let Some(r) = group.strip_prefix("adv1:") {
         (1, r.to_string())
@@ -47,10 +51,17 @@ fn main() {
         _ => "",
     };
     let mut c = Ctx::new(seed ^ fxhash(&g), prefix, size);
-    match backend {
-        0 => run_generic::<VecKind>(&mut c, &g, count),
-        1 => run_generic::<adv::AdvKind<1>>(&mut c, &g, count),
-        _ => run_generic::<adv::AdvKind<2>>(&mut c, &g, count),
+    if !replay_path.is_empty() {
+        if let Err(e) = replay::run_file(&mut c, &replay_path) {
+            eprintln!("cannot read {}: {}", replay_path, e);
+            std::process::exit(2);
+        }
+    } else {
+        match backend {
+            0 => run_generic::<VecKind>(&mut c, &g, count),
+            1 => run_generic::<adv::AdvKind<1>>(&mut c, &g, count),
+            _ => run_generic::<adv::AdvKind<2>>(&mut c, &g, count),
+        }
     }
     let stdout = std::io::stdout();
     let mut lock = stdout.lock();
